@@ -169,3 +169,82 @@ def asymmetric_assembly(u):
     u.ensure(z3.Implies(i >= n, ops._real(e(i, j)) == z3.If(j < n, ops._real(eJ(c, j)), -(lam / (1 + lam * rho)) * kron(c, j - n))), "constraint_rows_are[J|-lamb/(1+lamb*rho)*I]")
     u.canary(z3.Implies(z3.And(i < n, z3.Not(av.f(i)), j < n), ops._real(e(i, j)) == ops._real(eH(i, j))), "no_lamb_on_the_diagonal")
     u.cover("end")
+
+
+def _where_counts(u):
+    return list(u.path.ghost.get("__where_counts__", {}).values())
+
+
+@unit("C14.ScaledStepSolver.initial_rhs", ["C14", "C06"], [SOL + "scaled_step_solver.ScaledStepSolver.initial_rhs"], config={"max_paths": 40, "implicit_props": ["C06", "C14"]})
+def initial_rhs(u):
+    """(b0, b1, b2) = (dt * F_x[active], F_x[inactive], F_y) for F = func.value_at(iterate, rho, active_set)
+    (value_at == its definition is C13.ScaledImplicitFunc.value_at)"""
+    from .models import _fresh_vec
+
+    params, problem, n, m, ss, act, dt, rho = mk_solver(u)
+    F = _fresh_vec(u.it, "F", n + m)
+    seen = {}
+
+    def value_at(it, self_, iterate, rho_, active_set=None):
+        seen["args"] = (iterate, rho_, active_set)
+        return F
+
+    u.it.abstract["pygradflow.implicit_func.ScaledImplicitFunc.value_at"] = value_at
+    ss.fields["_func"] = u.obj("pygradflow.implicit_func.ScaledImplicitFunc")
+    cur = mk_iterate(u, problem, params, "cur", in_box=True)
+    b0, b1, b2 = u.method(ss, "initial_rhs", cur)
+    u.ensure(seen["args"][0] is cur and seen["args"][1] is rho and seen["args"][2] is act, "residual_evaluated_at_the_given_iterate_with_the_solver's_rho_and_active_set")
+    av, Fv = V(act), V(F)
+    cache = u.path.ghost.get("__where_cache__", {})
+    u.ensure(len(cache) == 2, "active_and_inactive_index_sets_computed")
+    (idxA, mA), (idxI, mI) = list(cache.values())
+    if getattr(mA, "neg_of", None) is not None:
+        (idxA, mA), (idxI, mI) = (idxI, mI), (idxA, mA)
+    u.ensure(mA is av and getattr(mI, "neg_of", None) is av, "index_sets_are_those_of_the_active_set_and_of_its_complement")
+    b0v, b1v, b2v = V(b0), V(b1), V(b2)
+    u.ensure(z3.And(b0v.n == idxA.n, b1v.n == idxI.n) if not isinstance(b0v.n, int) else False, "b0,b1_have_one_entry_per_active/inactive_component")
+    u.ensure(QAll(idxA.n, lambda t: b0v.f(t) == dt * Fv.f(idxA.f(t))), "b0==dt*F_x[active]")
+    u.ensure(QAll(idxI.n, lambda t: b1v.f(t) == Fv.f(idxI.f(t))), "b1==F_x[inactive]")
+    u.ensure(QAll(m, lambda i: b2v.f(i) == Fv.f(n + i)), "b2==F_y")
+    u.ensure((b2v.n == m) if not isinstance(b2v.n, int) else False, "b2_has_m_entries")
+    u.canary(QAll(idxA.n, lambda t: b0v.f(t) == Fv.f(idxA.f(t))), "b0_without_the_factor_dt")
+    u.cover("end")
+
+
+@unit("C14.Asymmetric.rhs", ["C14", "C06"], [ASY + "compute_rhs", ASY + "initial_sol"], config={"max_paths": 40, "implicit_props": ["C06", "C14"]})
+def asymmetric_rhs(u):
+    """right-hand side of the asymmetric system: rhs[j] = b0[rank of j among the active] for active j, b1[rank among the
+    inactive] otherwise, rhs[n+i] = b2t[i]; the initial guess carries b0 on the active components and zero elsewhere"""
+    from .models import _fresh_vec
+
+    params, problem, n, m, ss, act, dt, rho = mk_solver(u)
+    av = V(act)
+    from pyvc.npmodel import np_where
+
+    (iA,) = np_where(u.it, act)
+    nact = iA.vec().n
+    b0 = _fresh_vec(u.it, "b0", nact)
+    b1 = _fresh_vec(u.it, "b1", n - nact)
+    b2t = _fresh_vec(u.it, "b2t", m)
+    rhs = u.method(ss, "compute_rhs", b0, b1, b2t)
+    rv = V(rhs)
+    cache = list(u.path.ghost.get("__where_cache__", {}).values())
+    u.ensure(len(cache) == 2, "active_and_inactive_index_sets_used")
+    invA = cache[0][0].inverse[1]
+    invI = cache[1][0].inverse[1]
+    u.ensure((rv.n == n + m) if not isinstance(rv.n, int) else False, "rhs_has_n+m_entries")
+    j = u.int("j")
+    u.path.index_term(j, n)
+    u.assume(z3.And(j >= 0, j < n))
+    u.path.index_term(invA(j), nact)
+    u.path.index_term(invI(j), n - nact)
+    u.ensure(z3.Implies(av.f(j), rv.f(j) == V(b0).f(invA(j))), "rhs[j]==b0[rank_of_j_among_active]")
+    u.ensure(z3.Implies(z3.Not(av.f(j)), rv.f(j) == V(b1).f(invI(j))), "rhs[j]==b1[rank_of_j_among_inactive]")
+    u.ensure(QAll(m, lambda i: rv.f(n + i) == V(b2t).f(i)), "rhs[n:]==b2t")
+    mk = u.method(ss, "initial_sol", b0, b1, b2t)
+    sol = u.call_value(mk) if hasattr(u, "call_value") else u.it.call(mk, [], {})
+    sv = V(sol)
+    u.ensure(z3.Implies(av.f(j), sv.f(j) == V(b0).f(invA(j))), "initial_guess[j]==b0[rank]_on_active_components")
+    u.ensure(z3.Implies(z3.Not(av.f(j)), sv.f(j) == 0), "initial_guess_zero_on_inactive_components")
+    u.ensure(QAll(m, lambda i: sv.f(n + i) == 0), "initial_guess_zero_on_the_multipliers")
+    u.cover("end")
